@@ -72,6 +72,8 @@ class ProducerWorld(ClientWorld):
             def seen(res):
                 # what the client reports back to the producer for this attempt (pass-through observer)
                 from twisted.python.failure import Failure
+                self._last_call_failed = isinstance(res, Failure) or any(
+                    getattr(r, "error", 0) for r in (res or []))
                 resps = res
                 if isinstance(res, Failure):
                     resps = res.value.args[0] if res.check(FailedPayloadsError) and res.value.args else []
@@ -244,8 +246,9 @@ class ProducerWorld(ClientWorld):
         if len(owners) == 1:
             return owners[0]
         free = [o for o in owners if o not in used]
+        pending = [o for o in free if not self.sends[o[0]].fired]
         live = [o for o in free if not (self.sends[o[0]].fired and not self.sends[o[0]].call_steps)]
-        o = (live or free or owners)[0]
+        o = (pending or live or free or owners)[0]
         used.add(o)
         return o
 
@@ -378,6 +381,12 @@ class ProducerWorld(ClientWorld):
                         idx.append(o[0])
                     if o[0] not in idx_by_tp.setdefault((p.topic, p.partition), []):
                         idx_by_tp[(p.topic, p.partition)].append(o[0])
+        if self.cfg.get("same_content") and self.calls and self.calls[-1][3] == content and \
+                getattr(self, "_last_call_failed", False):
+            # identical records: a call that repeats the content of the previous, failed call is its retry and
+            # belongs to the same sends (a fresh dispatch with the very same content could not be told apart)
+            idx = list(self.calls[-1][2])
+            idx_by_tp = {tp: list(idx) for tp in content}
         new = [i for i in idx if not self.sends[i].call_steps]
         for i in idx:
             self.sends[i].call_steps.append(self.step)
